@@ -761,6 +761,7 @@ fn run_inner2<F: Fl>(h: &ObsHistory, soft: &mut Option<Div>) -> Result<OFacts, D
         if h.ops.len() > 12 && crate::common::hash_of(h) % 4 == 0 { Some(crate::noise::Noise::new()) } else { None };
     let noise_seed = crate::common::hash_of(h);
     let mut noise_step = 0u64;
+    let task_wide = h.same_waker && noise_seed % 2 == 1;
     for (step, op) in h.ops.iter().enumerate() {
         if let Some(nz) = noise.as_mut() {
             noise_step += 1;
@@ -1227,7 +1228,9 @@ fn run_inner2<F: Fl>(h: &ObsHistory, soft: &mut Option<Div>) -> Result<OFacts, D
                     let i = live[si % live.len()];
                     let sub = w.subs[i].as_mut().unwrap();
                     let (flag, waker) = if h.same_waker {
-                        let own = m.subs[i].as_mut().unwrap().own.get_or_insert_with(flag_waker);
+                        // one waker per subscriber - or, in half of these histories, the worker thread's
+                        // long-lived waker for every subscriber (common::task_waker)
+                        let own = m.subs[i].as_mut().unwrap().own.get_or_insert_with(if task_wide { task_waker } else { flag_waker });
                         (own.0.clone(), own.1.clone())
                     } else {
                         flag_waker()
